@@ -521,6 +521,55 @@ def gen_last_ref(seed, mode="loop"):
     return sc
 
 
+def gen_ctx_gone(seed, mode="loop"):
+    """C04/C07: nobody but the library and the handles given to m_mod_register() references the modules (the harness drops its
+    observation references), so the context really goes away with its last module: the last module is deregistered by a
+    handler of the final flush (loop-stopped notification / pending mail), by the last step while looping (release when the
+    loop returns) or from main after the loop; persistent contexts as a control"""
+    r = random.Random(seed * 67 + 43)
+    sc = Sc(mode, "context released with its last module seed=%d" % seed)
+    persistent = r.random() < 0.2
+    driven_skeleton(sc, CTX_PERSIST if persistent else 0)
+    sc.main.append(("obs_drop_keep_handle", DRV))
+    others = list(range(1, 1 + r.randrange(0, 4)))
+    t_stop = sc.topic("LIBMODULE_CTX_STOPPED")
+    variant = r.choice(["flush", "flush", "step", "main", "other_in_flush"])
+    for i in others:
+        sc.mod(i, "g%d" % i, r.choice([0, MOD_NAME_DUP, MOD_UD_AUTOFREE]), r.choice([0, 4, 7]))
+        for k in ("eval", "start"):
+            sc.cb(i, k, "*", [], ret=1)
+        sc.cb(i, "stop", "*", [])
+        sc.cb(i, "evt", "*", [("dereg", -1)] if (variant == "other_in_flush" and i == others[-1]) else [])
+        sc.main += [("reg", i), ("obs_drop_keep_handle", i), ("start", i)]
+        if variant == "other_in_flush" and i == others[-1]:
+            sc.main.append(("sub", i, t_stop, 0, sc.ud()))
+    if variant in ("flush",) or (variant == "other_in_flush" and not others):
+        sc.main.append(("sub", DRV, t_stop, 0, sc.ud()))
+    nsteps = r.randrange(1, 4)
+    steps = [[] for _ in range(nsteps)]
+    for st in steps:
+        for _ in range(r.randrange(0, 3)):
+            if others:
+                st.append(("tell", DRV, r.choice(others), sc.pay(), 0))
+    last = []
+    gone_in_loop = [i for i in others if not (variant == "other_in_flush" and i == others[-1])]
+    r.shuffle(gone_in_loop)
+    for i in gone_in_loop:
+        last.append(("dereg", i))
+    if variant == "step" or (variant == "other_in_flush" and others):
+        last.append(("dereg", -1))
+    driven_finish(sc, steps, rng=r, teardown=False, last_ops=last)
+    if variant == "flush" or (variant == "other_in_flush" and not others):
+        # invocations past the last step only happen inside the final flush
+        sc.cb(DRV, "evt", "*", [("dereg", -1)])
+    sc.main += [("ctx_len",), ("dereg", DRV)] + [("dereg", i) for i in others] + [("ctx_deregister",), ("RELEASE_ALL",)]
+    for u in range(0, 2):
+        sc.main.append(("fd_close", u))
+    sc.main.append(("quiesce",))
+    finalize_main(sc, nretained=2)
+    return sc
+
+
 def gen_tick_in_flush(seed, mode="loop"):
     """C20: m_ctx_set_tick() called by a handler that the final flush of a loop run invokes (loop-stopped notification) while a
     tick is active"""
@@ -1311,13 +1360,13 @@ def gen_ctxlife(seed, mode="loop"):
     sc = Sc(mode, "ctx_lifecycle seed=%d" % seed)
     slot = [1]
 
-    def fresh(name, flags=0, hooks=None):
+    def fresh(name, flags=0, hooks=None, p_teardown_in_stop=0.1):
         s_ = slot[0]
         slot[0] += 1
         sc.mod(s_, name, flags, r.choice([0, 4, 6, 7, 2]) if hooks is None else hooks)
         for k in ("eval", "start"):
             sc.cb(s_, k, "*", [], ret=1)
-        sc.cb(s_, "stop", "*", [("ctx_deregister",)] if r.random() < 0.1 else ([("ctx_len",)] if r.random() < 0.2 else []))
+        sc.cb(s_, "stop", "*", [("ctx_deregister",)] if r.random() < p_teardown_in_stop else ([("ctx_len",)] if r.random() < 0.2 else []))
         sc.cb(s_, "evt", "*", [])
         return s_
     no_ctx_calls = [("ctx_len",), ("ctx_name",), ("ctx_stats",), ("ctx_quit", 3), ("ctx_fd",), ("ctx_tick", 1000000), ("ctx_finalize",),
@@ -1336,6 +1385,17 @@ def gen_ctxlife(seed, mode="loop"):
         if r.random() < 0.5:
             sc.main.append(("ctx_register", r.choice([0, 1]), r.choice([0, CTX_PERSIST])))       # second one: -EEXIST
         mods = []
+        if r.random() < 0.3:
+            # the only module of the (idle) context is replaced by a same-named one: the context stays (unless the stop
+            # callback of the replaced module tears it down: the registration is then refused)
+            a_ = fresh("rep%d" % cy, MOD_ALLOW_REPLACE | r.choice([0, MOD_NAME_DUP]), r.choice([None, 4, 7]), p_teardown_in_stop=0.35)
+            sc.main.append(("reg", a_))
+            if r.random() < 0.5:
+                sc.main.append(("start", a_))
+            b_ = fresh("rep%d" % cy, r.choice([0, MOD_ALLOW_REPLACE]))
+            sc.main += [("reg", b_), ("ctx_len",)]
+            zombies.append(a_)
+            mods.append(b_)
         for _ in range(r.randrange(0, 7)):
             s_ = fresh("c%dm%d" % (cy, len(mods)), r.choice([0, 0, MOD_NAME_DUP, MOD_UD_AUTOFREE, MOD_PERSIST]))
             sc.main.append(("reg", s_))
